@@ -178,7 +178,10 @@ func (g *G) manifest() *manifest.Manifest {
 
 // ---- consensus messages: the types are not constructible from outside the package; build bytes ----
 
-func genConsensusMessage(g *G, w *io.BinWriter, typ byte) {
+// recOpts forces the shape of a RecoveryMessage (nil: random).
+type recOpts struct{ hasReq, hashPresent bool }
+
+func genConsensusMessage(g *G, w *io.BinWriter, typ byte, sr bool, force *recOpts) {
 	w.WriteB(typ)
 	w.WriteU32LE(g.u32())
 	w.WriteB(byte(g.r.Intn(8)))
@@ -205,6 +208,9 @@ func genConsensusMessage(g *G, w *io.BinWriter, typ byte) {
 		for i := range hs {
 			w.WriteBytes(hs[i][:])
 		}
+		if sr { // StateRootInHeader: the request carries the state root
+			w.WriteBytes(g.r.Bytes(32))
+		}
 	case 0x21: // PrepareResponse
 		w.WriteBytes(g.r.Bytes(32))
 	case 0x30: // Commit
@@ -220,12 +226,16 @@ func genConsensusMessage(g *G, w *io.BinWriter, typ byte) {
 			w.WriteU64LE(g.u64())
 			w.WriteVarBytes(g.bytes(1024))
 		}
-		if g.r.Bool() {
+		hasReq, hashPresent := g.r.Bool(), g.r.Bool()
+		if force != nil {
+			hasReq, hashPresent = force.hasReq, force.hashPresent
+		}
+		if hasReq {
 			w.WriteB(1)
-			genConsensusMessage(g, w, 0x20)
+			genConsensusMessage(g, w, 0x20, sr, nil)
 		} else {
 			w.WriteB(0)
-			if g.r.Bool() {
+			if hashPresent {
 				w.WriteVarUint(32)
 				w.WriteBytes(g.r.Bytes(32))
 			} else {
@@ -252,14 +262,14 @@ func genConsensusMessage(g *G, w *io.BinWriter, typ byte) {
 var consensusTypes = []byte{0x00, 0x20, 0x21, 0x30, 0x40, 0x41}
 
 // genConsensusBytes returns a segmented dBFT message (the Data of an Extensible payload).
-func genConsensusBytes(g *G) ([]byte, []int) {
+func genConsensusBytes(g *G, sr bool) ([]byte, []int) {
 	sw := &segWriter{}
 	w := io.NewBinWriterFromIO(sw)
 	typ := consensusTypes[g.r.Intn(len(consensusTypes))]
 	if g.r.Chance(1, 3) {
 		typ = 0x41
 	}
-	genConsensusMessage(g, w, typ)
+	genConsensusMessage(g, w, typ, sr, nil)
 	return sw.buf, sw.cuts
 }
 
